@@ -1,7 +1,141 @@
-(* STUB: Impl model of tpm2.rs -- to be written *)
-From Coq Require Import NArith List.
-From ACPI Require Import Lib.Bytes Lib.Sx Lib.Machine Impl.Checksum Impl.Table Impl.Fields Impl.Run.
+(* Impl model of tpm2.rs: TpmClient1_2, TpmServer1_2 (builder chain), Tpm2 (incremental set_log_area) *)
+From Coq Require Import NArith List Bool.
+From ACPI Require Import Lib.Bytes Lib.Sx Lib.Machine Impl.Checksum Impl.Table Impl.Fields Impl.Run Impl.Madt.
 Import ListNotations.
-Definition tpm2_case (md : mode) (c : sx) : list ev := [EvPanic].
-Definition tpmserver_case (md : mode) (c : sx) : list ev := [EvPanic].
-Definition tpmclient_case (md : mode) (c : sx) : list ev := [EvPanic].
+Open Scope N_scope.
+
+Definition TCPA : list N := [84; 67; 80; 65].
+Definition TPM2_SIG : list N := [84; 80; 77; 50].
+
+(* ================= TpmClient1_2 { header, log_area_min_len: u32, log_area_start_addr: u64 } ================= *)
+Record tpmclient := { tc_hdr : hdr; tc_len : N; tc_cks : N; tc_laml : N; tc_lasa : N }.
+
+(* to_aml_bytes: header, sink.word(PlatformClass::Client as u16), sink.dword(laml), sink.qword(lasa) *)
+Definition tpmclient_bytes (s : tpmclient) : list N :=
+  hdr_bytes (tc_hdr s) (tc_len s) (tc_cks s) ++ w2 0 ++ d4 (tc_laml s) ++ q8 (tc_lasa s).
+
+(* new: header { "TCPA", length 50, revision 2 }; cksum.append(header); cksum.append(laml.as_bytes());
+   cksum.append(lasa.as_bytes()) -- the platform class word is not fed to the checksum *)
+Definition tpmclient_new (c : sx) : option tpmclient :=
+  match c with
+  | SL [o; t; r; SA laml; SA lasa] =>
+      do h <- sx_hdr TCPA 2 o t r;
+      let ck := ck_append (ck_append (ck_append 0 (hdr_bytes h 50 0)) (d4 laml)) (q8 lasa) in
+      Some {| tc_hdr := h; tc_len := 50; tc_cks := ck_value ck; tc_laml := laml; tc_lasa := lasa |}
+  | _ => None
+  end.
+
+Definition tpmclient_step (md : mode) (s : tpmclient) (o : sx) : option (tpmclient * list ev) := None.
+
+Definition tpmclient_case (md : mode) (c : sx) : list ev :=
+  run_history (fun s => Some (tpmclient_bytes s)) (tpmclient_step md) tpmclient_new c.
+
+(* ================= TpmServer1_2 (packed, 100 bytes) ================= *)
+(* fields after the header, in declaration order:
+   0 platform_class(2) 1 _reserved0(2) 2 log_area_min_len(8) 3 log_area_start_addr(8) 4,5 tcg_spec_rev_bcd[2]
+   6 device_flags 7 interrupt_flags 8 gpe 9,10,11 _reserved1[3] 12 gsi(4)
+   13..17 base_addr: GAS { address_space_id, register_bit_width, register_bit_offset, access_size, address(8) }
+   18 _reserved2(4) 19..23 tpm_config_addr: GAS 24 pci_segment 25 pci_bus 26 pci_device 27 pci_function *)
+Definition tpmserver_body0 : flds :=
+  [F 2 1; F 2 0; F 8 0; F 8 0; F 1 1; F 1 2; F 1 0; F 1 0; F 1 0; F 1 0; F 1 0; F 1 0; F 4 0;
+   F 1 0; F 1 0; F 1 0; F 1 0; F 8 0; F 4 0; F 1 0; F 1 0; F 1 0; F 1 0; F 8 0; F 1 0; F 1 0; F 1 0; F 1 0].
+
+Record tpmserver := { sv_hdr : hdr; sv_cks : N; sv_body : flds }.
+
+(* as_bytes() with a given checksum byte *)
+Definition tpmserver_bytes_ck (s : tpmserver) (cks : N) : list N :=
+  hdr_bytes (sv_hdr s) 100 cks ++ ser_flds (sv_body s).
+Definition tpmserver_bytes (s : tpmserver) : list N := tpmserver_bytes_ck s (sv_cks s).
+
+(* new: header { "TCPA", length 100, revision 2 }; cksum.append(header); cksum.append((Server as u16).as_bytes());
+   cksum.append(&tcg_spec_rev_bcd); everything else Default (zero) *)
+Definition tpmserver_new (c : sx) : option tpmserver :=
+  match c with
+  | SL [o; t; r] =>
+      do h <- sx_hdr TCPA 2 o t r;
+      let ck := ck_append (ck_append (ck_append 0 (hdr_bytes h 100 0)) (w2 1)) [1; 2] in
+      Some {| sv_hdr := h; sv_cks := ck_value ck; sv_body := tpmserver_body0 |}
+  | _ => None
+  end.
+
+(* update_header: self.header.checksum = 0; self.header.checksum = generate_checksum(self.as_bytes()) *)
+Definition tpmserver_update (s : tpmserver) (body : flds) : tpmserver :=
+  let s0 := {| sv_hdr := sv_hdr s; sv_cks := 0; sv_body := body |} in
+  {| sv_hdr := sv_hdr s; sv_cks := generate_checksum (tpmserver_bytes s0); sv_body := body |}.
+
+Definition set_gas (f : flds) (i : nat) (sp wd off acc addr : N) : flds :=
+  fset (fset (fset (fset (fset f i sp) (i + 1) wd) (i + 2) off) (i + 3) acc) (i + 4) addr.
+
+(* the field updates of each builder (before its update_header) *)
+Definition tpmserver_builder (f : flds) (o : sx) : option flds :=
+  match o with
+  | SL [SA 1; SA laml; SA lasa] => Some (fset (fset f 2 laml) 3 lasa)                (* log_area *)
+  | SL [SA 2] => Some (f_or f 7 2)                                                   (* active_low *)
+  | SL [SA 3] => Some (f_or f 7 1)                                                   (* edge_triggered *)
+  | SL [SA 4; SA gpe] => Some (f_or (fset f 8 gpe) 7 4)                              (* sci_gpe *)
+  | SL [SA 5; SA gsi] => Some (f_or (fset f 12 gsi) 7 8)                             (* gsi *)
+  | SL [SA 6] => Some (f_or f 6 2)                                                   (* bus_is_pnp *)
+  | SL [SA 7; SA seg; SA bus; SA dev; SA fn] =>                                      (* pci_sbdf: asserts first *)
+      do _ <- pci_ok dev fn;
+      Some (f_or (fset (fset (fset (fset f 24 seg) 25 bus) 26 dev) 27 fn) 6 1)
+  | SL [SA 8; SA sp; SA wd; SA off; SA acc; SA addr] => Some (set_gas f 13 sp wd off acc addr)          (* base_addr *)
+  | SL [SA 9; SA sp; SA wd; SA off; SA acc; SA addr] => Some (set_gas (f_or f 6 4) 19 sp wd off acc addr) (* config_addr *)
+  | _ => None
+  end.
+
+Definition tpmserver_step (md : mode) (s : tpmserver) (o : sx) : option (tpmserver * list ev) :=
+  do f <- tpmserver_builder (sv_body s) o;
+  Some (tpmserver_update s f, [EvNum 0]).
+
+Definition tpmserver_case (md : mode) (c : sx) : list ev :=
+  run_history (fun s => Some (tpmserver_bytes s)) (tpmserver_step md) tpmserver_new c.
+
+(* ================= Tpm2 ================= *)
+Record tpm2 := {
+  t2_hdr : hdr; t2_len : N; t2_hck : N;      (* header, header.length, header.checksum *)
+  t2_ck : N;                                  (* the running Checksum *)
+  t2_class : N; t2_base : N; t2_sm : N;       (* platform_class as u16, crb_or_fifo_base, start_method as u32 *)
+  t2_params : list N; t2_plen : nat;          (* start_method_params: [u8; 12], start_method_param_len *)
+  t2_laml : option N; t2_lasa : option N }.
+
+Definition opt_bytes (w : nat) (o : option N) : list N := match o with Some v => le w v | None => [] end.
+
+Definition tpm2_bytes (s : tpm2) : list N :=
+  hdr_bytes (t2_hdr s) (t2_len s) (t2_hck s) ++ w2 (t2_class s) ++ w2 0 ++ q8 (t2_base s) ++ d4 (t2_sm s)
+  ++ firstn (t2_plen s) (t2_params s) ++ opt_bytes 4 (t2_laml s) ++ opt_bytes 8 (t2_lasa s).
+
+(* enum arguments: PlatformClass 0 Client | 1 Server; StartMethod by its discriminant 1 2 6 7 8 11 12 *)
+Definition platform_class_ok (c : N) : bool := c <? 2.
+Definition start_method_ok (m : N) : bool :=
+  match m with 1 | 2 | 6 | 7 | 8 | 11 | 12 => true | _ => false end.
+
+(* new: header { "TPM2", length 52, revision 1 }; cksum.append(header); append((class as u16)); append(base); append((sm as u32)) *)
+Definition tpm2_new (c : sx) : option tpm2 :=
+  match c with
+  | SL [o; t; r; SA cls; SA base; SA sm] =>
+      do h <- sx_hdr TPM2_SIG 1 o t r;
+      do _ <- assert (platform_class_ok cls && start_method_ok sm);
+      let ck := ck_append (ck_append (ck_append (ck_append 0 (hdr_bytes h 52 0)) (w2 cls)) (q8 base)) (d4 sm) in
+      Some {| t2_hdr := h; t2_len := 52; t2_hck := ck_value ck; t2_ck := ck; t2_class := cls; t2_base := base; t2_sm := sm;
+              t2_params := repeatN 0 12; t2_plen := 0; t2_laml := None; t2_lasa := None |}
+  | _ => None
+  end.
+
+(* set_log_area(min_len: u32, base_addr: u64): assert!(old_len == 52); new_len = old_len + 24;
+   checksum.delete(old_len); append(new_len); append(min_len); append(base_addr); header.checksum = checksum.value();
+   start_method_param_len = 12; log_area_* = Some(..) *)
+Definition tpm2_step (md : mode) (s : tpm2) (o : sx) : option (tpm2 * list ev) :=
+  match o with
+  | SL [SA 1; SA laml; SA lasa] =>
+      let old_len := t2_len s in
+      do _ <- assert (old_len =? 52);
+      do new_len <- add_m md U32 old_len 24;
+      let ck := fold_left ck_step [CkDelete (d4 old_len); CkAppend (d4 new_len); CkAppend (d4 laml); CkAppend (q8 lasa)] (t2_ck s) in
+      Some ({| t2_hdr := t2_hdr s; t2_len := new_len; t2_hck := ck_value ck; t2_ck := ck; t2_class := t2_class s;
+               t2_base := t2_base s; t2_sm := t2_sm s; t2_params := t2_params s; t2_plen := 12;
+               t2_laml := Some laml; t2_lasa := Some lasa |}, [EvNum 0])
+  | _ => None
+  end.
+
+Definition tpm2_case (md : mode) (c : sx) : list ev :=
+  run_history (fun s => Some (tpm2_bytes s)) (tpm2_step md) tpm2_new c.
